@@ -77,13 +77,15 @@ func init() {
 			return []string{"release"}
 		},
 		Required: []string{"kind/uint", "kind/uintptr", "kind/int", "kind/bool", "kind/complex128", "kind/string", "kind/slice", "kind/array", "kind/map",
-			"kind/ptr", "kind/interface", "kind/struct", "nil/ptr", "nil/interface", "nil/slice", "nil/map", "empty/slice", "empty/map", "nil/argument", "stat/avg", "named", "large-containers"},
+			"kind/ptr", "kind/interface", "kind/struct", "nil/ptr", "nil/interface", "nil/slice", "nil/map", "empty/slice", "empty/map", "nil/argument", "stat/avg", "named", "large-containers", "depth>1000", "same-named-distinct-types"},
 		Families: func(c *mon.Config) []mon.Family {
 			return []mon.Family{
 				{Name: "scalar-positions", N: len(c20Scalars) * 8, Run: c20ScalarPositions},
 				{Name: "named", N: c.Pick(200, 20000), Run: c20NamedTypes},
 				{Name: "random-types", N: c.Pick(40000, 2500000), Run: c20Random},
 				{Name: "large-containers", N: c.Pick(120, 20000), Run: func(w *mon.W, idx int) { c20RandomWith(w, idx, true) }},
+				{Name: "deep-nesting", N: c.Pick(9, 300), Run: c20Deep},
+				{Name: "same-named-types", N: c.Pick(4, 100), Run: c20SameNamed},
 			}
 		},
 	})
@@ -619,5 +621,89 @@ func c20RandomWith(w *mon.W, idx int, big bool) {
 	}
 	w.Sample(func() interface{} {
 		return mon.D{"type": fmt.Sprintf("%.200s", t.String()), "value": short(x, 200), "expected_size": exp, "depth": g.depth}
+	})
+}
+
+type c20Node struct {
+	Val  int64
+	Next *c20Node
+}
+type c20Nest []c20Nest
+type c20Box struct{ In interface{} }
+
+// c20Deep: acyclic values nested deeper than 1000 steps (breadth never reaches such depths).
+func c20Deep(w *mon.W, idx int) {
+	r := w.Rng
+	n := []int{1100, 1500, 4000}[idx%3] + r.Intn(50)
+	w.Bucket("depth>1000")
+	switch (idx / 3) % 3 {
+	case 0: // linked list: each node int64 + pointer header, last pointer nil
+		var head *c20Node
+		for i := 0; i < n; i++ {
+			head = &c20Node{Val: int64(i), Next: head}
+		}
+		c20Observe(w, head, c20Ptr+n*(8+c20Ptr), "deep-linked-list")
+	case 1: // type nest []nest, one element per level, innermost nil
+		var v c20Nest
+		exp := c20Slice
+		for i := 0; i < n; i++ {
+			v = c20Nest{v}
+			exp += c20Slice
+		}
+		c20Observe(w, v, exp, "deep-nested-slices")
+	default: // &box{in: &box{in: ... payload}}
+		payload := "payload-" + string(gen.ZooBytes(r, 20))
+		var cur interface{} = payload
+		exp := c20Str + len(payload)
+		for i := 0; i < n/3; i++ {
+			cur = &c20Box{In: cur}
+			exp += c20Ptr + c20Iface
+		}
+		c20Observe(w, cur, exp, "deep-interface-wrappers")
+	}
+	w.Distinct(gen.Hash64(0xdee9, uint64(n), uint64(idx%9)))
+	w.Sample(func() interface{} {
+		return mon.D{"what": "value nested deeper than 1000 steps", "depth": n, "shape": (idx / 3) % 3}
+	})
+}
+
+// c20SameNamed: distinct types that print the same name (function-local declarations), measured one
+// after the other: a result remembered per type NAME instead of per type goes stale.
+func c20SameNamed(w *mon.W, idx int) {
+	r := w.Rng
+	a := func() (interface{}, int) {
+		type rec struct {
+			ID int32
+			N  int64
+		}
+		v := []rec{{1, 2}, {3, 4}, {5, int64(r.Intn(9))}}
+		return v, c20Slice + 3*(4+8)
+	}
+	b := func() (interface{}, int) {
+		type rec struct {
+			ID   int32
+			Name string
+		}
+		v := []rec{{1, "alice"}, {2, "bob"}}
+		return v, c20Slice + 2*(4+c20Str) + 5 + 3
+	}
+	c := func() (interface{}, int) {
+		type rec struct {
+			P *int16
+			B [3]bool
+		}
+		x := int16(7)
+		v := [2]rec{{&x, [3]bool{}}, {nil, [3]bool{true}}}
+		return v, (c20Ptr + 2 + 3) + (c20Ptr + 3)
+	}
+	order := [][]func() (interface{}, int){{a, b, c}, {b, a, c}, {c, b, a}, {a, c, b}}[idx%4]
+	for _, f := range order {
+		v, exp := f()
+		c20Observe(w, v, exp, "same-named-local-type")
+	}
+	w.Bucket("same-named-distinct-types")
+	w.Distinct(gen.Hash64(0x5a9e, uint64(idx%4)))
+	w.Sample(func() interface{} {
+		return mon.D{"what": "three function-local types all named rec, measured in order", "order": idx % 4}
 	})
 }
